@@ -860,7 +860,7 @@ class Fxp():
             _n_word_max_ = min(_n_word_max, 64)
             _val_lim = 2**(_n_word_max_ - 1)
             if isinstance(conv_factor, int) and conv_factor > 1:
-                _val_lim = _val_lim // conv_factor
+                _val_lim = _val_lim // conv_factor if conv_factor < _val_lim else 0    # (0: the factor alone does not fit)
             if val.dtype == np.uint64 and self.n_word < _n_word_max_:
                 # machine words (results of unsigned numpy arithmetic) keep their two's complement meaning
                 val = val.astype(np.int64)
